@@ -68,13 +68,21 @@ wstran_pipe_send_cb(void *arg)
 	uaio          = p->user_txaio;
 	p->user_txaio = NULL;
 
-	if (uaio != NULL) {
-		int rv;
-		if ((rv = nni_aio_result(taio)) != 0) {
+	int rv;
+	if ((rv = nni_aio_result(taio)) != 0) {
+		// The websocket did not take the message.  Hand it back to
+		// the sender if it is still waiting (a failed send leaves the
+		// message with the caller), otherwise release it.
+		nni_msg *msg = nni_aio_get_msg(taio);
+		nni_aio_set_msg(taio, NULL);
+		if (uaio != NULL) {
+			nni_aio_set_msg(uaio, msg);
 			nni_aio_finish_error(uaio, rv);
 		} else {
-			nni_aio_finish(uaio, 0, 0);
+			nni_msg_free(msg);
 		}
+	} else if (uaio != NULL) {
+		nni_aio_finish(uaio, 0, 0);
 	}
 	nni_mtx_unlock(&p->mtx);
 }
